@@ -69,7 +69,7 @@ fn c18_conv_filter() {
 
 /// `AsLog for Metadata` / `AsTrace for log::Metadata`: level and target survive.
 #[kani::proof]
-#[kani::unwind(17)]
+#[kani::unwind(16)]
 #[kani::stub(std::rt::thread_cleanup, noop)]
 #[kani::stub(core::fmt::write, fmt_write_stub)]
 fn c18_conv_metadata() {
@@ -94,7 +94,8 @@ static C: Rec = Rec::new();
 
 /// Forces the five per-level `Lazy<Fields>` of tracing-log through the public API with
 /// concrete levels, so that the harness proper starts from the steady state "field keys
-/// initialised" (the cold start is covered per level by the `*_cold_*` harnesses).
+/// initialised" (the cold start, where the record itself initialises them, is
+/// `c18_bridge_tracer_cold`).
 fn warm() {
     let _ = log::Metadata::builder().level(log::Level::Error).target("w").build().as_trace();
     let _ = log::Metadata::builder().level(log::Level::Warn).target("w").build().as_trace();
@@ -109,8 +110,10 @@ enum Entry {
     Tracer,
     /// `tracing_log::format_trace`
     FormatTrace,
-    /// `LogTracer::builder().ignore_crate("ab").init()` then `log::logger().log(..)`
-    IgnoreAb,
+    /// `LogTracer::builder().ignore_crate("ab").with_max_level(f).init()` then
+    /// `log::logger().log(..)` (the `log!` macros themselves are not reachable for Kani:
+    /// `Location::caller`)
+    IgnoreAb(u8),
 }
 
 struct Outcome {
@@ -161,8 +164,8 @@ fn bridge_from(entry: Entry, warm_start: bool) -> Outcome {
         Entry::FormatTrace => {
             assert!(tracing_log::format_trace(&record).is_ok());
         }
-        Entry::IgnoreAb => {
-            assert!(LogTracer::builder().ignore_crate("ab").init().is_ok());
+        Entry::IgnoreAb(f) => {
+            assert!(LogTracer::builder().ignore_crate("ab").with_max_level(l_filter(f)).init().is_ok());
             log::logger().log(&record);
         }
     }
@@ -209,7 +212,7 @@ fn check_bridge(o: &Outcome, want: bool) {
 /// LogTracer::new() with the tracing max level at TRACE: the collector's own verdict on
 /// the record's level and target decides.
 #[kani::proof]
-#[kani::unwind(17)]
+#[kani::unwind(16)]
 #[kani::stub(std::rt::thread_cleanup, noop)]
 #[kani::stub(core::fmt::write, fmt_write_stub)]
 fn c18_bridge_tracer() {
@@ -229,7 +232,7 @@ fn c18_bridge_tracer() {
 
 /// `format_trace` (no level gate of its own)
 #[kani::proof]
-#[kani::unwind(17)]
+#[kani::unwind(16)]
 #[kani::stub(std::rt::thread_cleanup, noop)]
 #[kani::stub(core::fmt::write, fmt_write_stub)]
 fn c18_bridge_format_trace() {
@@ -245,7 +248,7 @@ fn c18_bridge_format_trace() {
 
 /// symbolic tracing max level: records more verbose than it never reach the collector
 #[kani::proof]
-#[kani::unwind(17)]
+#[kani::unwind(16)]
 #[kani::stub(std::rt::thread_cleanup, noop)]
 #[kani::stub(core::fmt::write, fmt_write_stub)]
 fn c18_bridge_tracer_max() {
@@ -265,19 +268,22 @@ fn c18_bridge_tracer_max() {
 
 /// ignore list with one prefix, through `Builder::init` and the installed global logger
 #[kani::proof]
-#[kani::unwind(17)]
+#[kani::unwind(16)]
 #[kani::stub(std::rt::thread_cleanup, noop)]
 #[kani::stub(core::fmt::write, fmt_write_stub)]
 fn c18_bridge_ignore() {
     tracing_core::__verif::set_max(LevelFilter::TRACE);
-    let o = bridge(Entry::IgnoreAb);
+    let f = any_filter_rank();
+    let o = bridge(Entry::IgnoreAb(f));
     let want = !o.ignored && C.verdict(o.rank, o.class);
     check_bridge(&o, want);
     if o.ignored {
         assert!(C.asked.load(Relaxed) == 0);
     }
-    // `init` publishes the builder's default filter
-    assert!(log::max_level() == log::LevelFilter::Trace);
+    // `init` publishes the builder's filter as `log`'s max level (which the `log!`
+    // macros, not `Log::log`, consult)
+    assert!(log::max_level() == l_filter(f));
+    kani::cover!(want && f == 0);
     kani::cover!(o.ignored && C.verdict(o.rank, o.class)); // ignored although accepted
     kani::cover!(want && o.class == 1); // starts with 'a' but not with "ab"
     kani::cover!(!want && !o.ignored);
@@ -287,7 +293,7 @@ fn c18_bridge_ignore() {
 
 /// vacuity twin of the bridge harnesses: a delivered record with all locations present
 #[kani::proof]
-#[kani::unwind(17)]
+#[kani::unwind(16)]
 #[kani::stub(std::rt::thread_cleanup, noop)]
 #[kani::stub(core::fmt::write, fmt_write_stub)]
 fn c18_reach() {
@@ -300,7 +306,7 @@ fn c18_reach() {
 
 /// cold start: the per-level field keys are initialised lazily by the record itself
 #[kani::proof]
-#[kani::unwind(17)]
+#[kani::unwind(16)]
 #[kani::stub(std::rt::thread_cleanup, noop)]
 #[kani::stub(core::fmt::write, fmt_write_stub)]
 fn c18_bridge_tracer_cold() {
@@ -364,7 +370,7 @@ fn new_span(rank: u8) -> tracing::Span {
 /// the mapped level and the callsite's target, provided `log`'s own max level and the
 /// logger's `enabled` let it through
 #[kani::proof]
-#[kani::unwind(23)]
+#[kani::unwind(4)]
 #[kani::stub(std::rt::thread_cleanup, noop)]
 #[kani::stub(core::fmt::write, fmt_write_stub)]
 fn c18_rev_event() {
@@ -394,7 +400,7 @@ fn c18_rev_event() {
 
 /// explicit `target:` is the record's target
 #[kani::proof]
-#[kani::unwind(23)]
+#[kani::unwind(4)]
 #[kani::stub(std::rt::thread_cleanup, noop)]
 #[kani::stub(core::fmt::write, fmt_write_stub)]
 fn c18_rev_event_target() {
@@ -407,7 +413,7 @@ fn c18_rev_event_target() {
 
 /// no collector ever installed: span new / enter / exit / close emit one record each
 #[kani::proof]
-#[kani::unwind(23)]
+#[kani::unwind(4)]
 #[kani::stub(std::rt::thread_cleanup, noop)]
 #[kani::stub(core::fmt::write, fmt_write_stub)]
 fn c18_rev_span() {
@@ -433,7 +439,7 @@ fn c18_rev_span() {
 
 /// a span with a field: the creation record carries the callsite's target
 #[kani::proof]
-#[kani::unwind(23)]
+#[kani::unwind(4)]
 #[kani::stub(std::rt::thread_cleanup, noop)]
 #[kani::stub(core::fmt::write, fmt_write_stub)]
 fn c18_rev_span_fields() {
@@ -450,7 +456,7 @@ fn c18_rev_span_fields() {
 /// once `set_default` has run (EXISTS), nothing is emitted any more, whether or not the
 /// collector is still installed
 #[kani::proof]
-#[kani::unwind(23)]
+#[kani::unwind(4)]
 #[kani::stub(std::rt::thread_cleanup, noop)]
 #[kani::stub(core::fmt::write, fmt_write_stub)]
 fn c18_rev_after_set() {
@@ -476,7 +482,7 @@ fn c18_rev_after_set() {
 
 /// vacuity twin of the reverse direction
 #[kani::proof]
-#[kani::unwind(23)]
+#[kani::unwind(4)]
 #[kani::stub(std::rt::thread_cleanup, noop)]
 #[kani::stub(core::fmt::write, fmt_write_stub)]
 fn c18_rev_reach() {
@@ -517,7 +523,7 @@ fn any_interest() -> (u8, tracing_core::Interest) {
 /// interest are arbitrary: still exactly one record per event (the enabled and the
 /// disabled arm of `event!` both log)
 #[kani::proof]
-#[kani::unwind(23)]
+#[kani::unwind(4)]
 #[kani::stub(std::rt::thread_cleanup, noop)]
 #[kani::stub(core::fmt::write, fmt_write_stub)]
 fn c18_rev_event_cached() {
@@ -543,14 +549,15 @@ fn c18_rev_event_cached() {
 /// a collector is installed and the event is (or is not) delivered to it: the logger
 /// sees nothing either way, and the collector does not take it for a log record
 #[kani::proof]
-#[kani::unwind(23)]
+#[kani::unwind(16)]
 #[kani::stub(std::rt::thread_cleanup, noop)]
 #[kani::stub(core::fmt::write, fmt_write_stub)]
 fn c18_rev_after_set_cached() {
     vtable_hint();
     install_logger(log::LevelFilter::Trace);
     tracing_core::__verif::set_max(LevelFilter::TRACE);
-    C.any_table();
+    // the only table entry this harness can consult; all others reject
+    C.set_verdict(3, target_class(CALLSITE_TARGET), kani::any());
     let d = tracing_core::__verif::dispatch_unregistered(&C);
     let _g = dispatch::set_default(&d);
     ev_info(); // first hit: registers
